@@ -1,14 +1,15 @@
 N = {"quick": 20, "thorough": 300}
 EXHAUSTIVE = {"quick": False, "thorough": False}
 SEARCH_THOROUGH = False
-RULE = ("each case = one synthetic in-memory dataset (1-3 instruments, 1-12 / 13-60 / 200-800 / 1000-2000(4000) trades, few distinct prices), 1-3 strategy "
+RULE = ("each case = one synthetic in-memory dataset (1-3 instruments, 1-12 / 13-60 / 200-800 / 1000-2000(4000) trade Items, few distinct prices, plus MarketStreamEvent::Reconnecting markers: "
+        "1-3 before the first Item in half of the cases, scattered between Items in a third, 1-2 after the last Item in a third), 1-3 strategy "
         "parameterisations (passive, or a plan of 1-4 market orders triggered by the count of market events: first event, last event, colliding triggers, "
         "quantities beyond the balance) and 2-4 `run n w` ops: n in {1,2,8,32} backtests through the real barter::backtest::run_backtests / backtest on a tokio "
-        "runtime with w in {0 = current-thread,1,4,8} workers, then every backtest again alone; a recording GlobalData + InstrumentDataState capture what each engine saw. "
-        "The committed corpus (corpus/C20/fills_lost.ops) runs first; its 4000-event case makes the known finding show on practically every run "
+        "runtime with w in {0 = current-thread,1,4,8} workers, then every backtest again alone; a recording GlobalData + InstrumentDataState + OnDisconnectStrategy (one per-engine log) capture what each engine saw, markers included. "
+        "The committed corpus (corpus/C20/fills_lost.ops, corpus/C20/markers.ops: markers at the head / middle / tail, marker-only dataset) runs first; its 4000-event case makes the known finding show on practically every run "
         "(alone on a current-thread runtime is always flat, 2 backtests on 4 workers see the first order's fill). A case is distinct by the SHA-1 of its op lines and non-trivial when the observation blocks differ")
 ASSUMPTIONS = [
-    "MarketDataInMemory datasets holding MarketStreamEvent::Item trades only (no Reconnecting items), one mock exchange, zero fees, latency_ms = 0",
+    "MarketDataInMemory datasets of trade Items and Reconnecting markers with at least one Item (MarketDataInMemory::new panics otherwise; harness, model and spec all report `panic`); one mock exchange, zero fees, latency_ms = 0",
     "trading enabled from the start and never disabled; no Command / TradingStateUpdate is sent during a backtest",
     "the engine state handed to the backtests already carries the exchange's initial balances (as in the repo's example config), so the initial account snapshot is idempotent",
     "the engine is an arbitrary deterministic function of its state and event (strategy, risk manager, recorders included); a strategy with interior randomness or wall-clock reads is outside the model",
